@@ -65,6 +65,7 @@ pub async fn start(upstream: u16) -> std::io::Result<Chopper> {
                 let pump = move |mut from: tokio::net::tcp::OwnedReadHalf, mut to: tokio::net::tcp::OwnedWriteHalf, c: Arc<AtomicBool>, b: Arc<AtomicBool>, sg: Arc<AtomicU64>, tape: Option<Arc<Mutex<BTreeMap<u64, Vec<u8>>>>>| async move {
                     let mut buf = vec![0u8; 65536];
                     let mut passed = 0usize;
+                    let mut rs: u64 = 0x9E37_79B9_7F4A_7C15 ^ (link_no << 17) ^ (from.as_ref().local_addr().map(|a| a.port() as u64).unwrap_or(1));
                     loop {
                         if c.load(Ordering::SeqCst) {
                             break;
@@ -89,7 +90,19 @@ pub async fn start(upstream: u16) -> std::io::Result<Chopper> {
                                 let seg = sg.load(Ordering::SeqCst) as usize;
                                 let mut off = 0;
                                 while off < n {
-                                    let mut k = if seg == 0 { n - off } else { seg.min(n - off) };
+                                    // pieces of 1..=seg bytes, sizes drawn afresh for every piece: over many flows a cut falls
+                                    // at every offset of the wire format
+                                    // the first 256 bytes of a direction carry the protocol heads: cut them finely whenever
+                                    // re-segmentation is on at all
+                                    let seg = if seg != 0 && passed < 256 { seg.min(8) } else { seg };
+                                    let mut k = if seg == 0 {
+                                        n - off
+                                    } else {
+                                        rs ^= rs << 13;
+                                        rs ^= rs >> 7;
+                                        rs ^= rs << 17;
+                                        (1 + (rs % seg as u64) as usize).min(n - off)
+                                    };
                                     if passed < keep {
                                         k = k.max((keep - passed).min(n - off));
                                     }
